@@ -478,6 +478,12 @@ fn gen_base(rng: &mut Rng, usage: &mut BTreeMap<String, u64>) -> (Prog, Vec<Sink
         }
         preds.sort();
         preds.dedup();
+        // a tap behind the normalising map of a compound operator (join, zip, enumerate, cross_singleton) observes
+        // that operator: list it first
+        if let Some(pos) = between.iter().position(|(n, _)| prog.nodes[x].ins.iter().any(|(s, _)| prog.nodes[*s].name == *n && prog.nodes[*s].ty != IT)) {
+            let raw = between.remove(pos);
+            between.insert(0, raw);
+        }
         sinks.push(Sink22 { site, name: prog.nodes[x].name.clone(), ordered, between, preds });
     }
     sinks.sort_by_key(|s| s.site);
